@@ -244,6 +244,7 @@ func (wp *workerPool) workerFunc(ch *workerChan) {
 		} else {
 			_ = c.Close()
 			wp.connState(c, StateClosed)
+			releasePerIPConn(c)
 		}
 
 		if !wp.release(ch) {
